@@ -170,6 +170,9 @@ Proof.
   - exact S1.
 Qed.
 
+Lemma oeq_ren_incl V N rho a a' : (forall v, In v V -> In v N) -> oeq_ren N rho a a' -> oeq_ren V rho a a'.
+Proof. intros HI. destruct a, a'; cbn; try tauto. intros H x y Hx Hy. apply H; apply HI; assumption. Qed.
+
 Lemma derive_func_rename rho f : inj_on (func_names f) rho -> forall cs,
   snd (derive_func (rename_func rho f) cs) = snd (derive_func f cs) /\
   oeq_ren (func_vars f) rho (fst (derive_func f cs)) (fst (derive_func (rename_func rho f) cs)).
@@ -181,10 +184,7 @@ Proof.
               (SBlock (f_body f)) Hinj (fun v => func_vars_names f v)
               (fun v Hv => proj2 (in_app_iff _ _ v) (or_intror Hv)) S1 S2 (S depth_fuel) cs 0) as [E R].
   split; [exact E|].
-  destruct (fst (derive (S depth_fuel) (func_vars f) (SBlock (f_body f)) cs 0)),
-           (fst (derive (S depth_fuel) (func_vars (rename_func rho f))
-                   (rename_stmt rho (SBlock (f_body f))) cs 0)); cbn in *; try tauto.
-  intros x y Hx Hy. apply R; apply func_vars_names; assumption.
+  exact (oeq_ren_incl _ _ rho _ _ (fun v => func_vars_names f v) R).
 Qed.
 
 Theorem analyse_rename :
@@ -195,7 +195,7 @@ Theorem analyse_rename :
     results_agree (func_vars f) rho r r'.
 Proof.
   intros FR VS VC rho f stop stop' r r' Hinj OK OK' Han Han'.
-  apply (transfer FR VS VC f (rename_func rho f) rho OK OK'); try assumption.
+  refine (transfer FR VS VC f (rename_func rho f) rho OK OK' _ _ stop stop' r r' Han Han').
   - intros x Hx. apply (proj1 (func_vars_rename rho f Hinj)). apply in_map. exact Hx.
   - apply derive_func_rename. exact Hinj.
 Qed.
@@ -222,7 +222,7 @@ Theorem analyse_pfm :
     results_agree (func_vars f) (fun x => x) r r'.
 Proof.
   intros FR VS VC f stop stop' r r' OK Han Han'.
-  apply (transfer FR VS VC f (pfm_func f) (fun x => x) OK (func_ok_pfm f OK)); try assumption.
+  refine (transfer FR VS VC f (pfm_func f) (fun x => x) OK (func_ok_pfm f OK) _ _ stop stop' r r' Han Han').
   - intros x Hx. rewrite func_vars_pfm. exact Hx.
   - intros cs. rewrite derive_func_pfm. split; [reflexivity|apply oeq_ren_refl].
 Qed.
@@ -260,6 +260,12 @@ Definition layout_eq_func (f f' : func_src) : Prop :=
   seml (func_vars f) (f_body f) (f_body f') /\
   Forall (fuel_ok depth_fuel) (f_body f) /\ Forall (fuel_ok depth_fuel) (f_body f').
 
+Lemma oeq_compose V a b a' : oeqV V a b -> oeq_all b a' -> oeq_ren V (fun x => x) a a'.
+Proof.
+  destruct a as [A|], b as [B|], a' as [A'|]; cbn; try tauto.
+  intros R2 R1 x y Hx Hy. rewrite R1. symmetry. apply R2; assumption.
+Qed.
+
 Lemma derive_func_layout f f' : layout_eq_func f f' -> forall cs,
   snd (derive_func f' cs) = snd (derive_func f cs) /\
   oeq_ren (func_vars f) (fun x => x) (fst (derive_func f cs)) (fst (derive_func f' cs)).
@@ -277,11 +283,7 @@ Proof.
     with (derive_func f cs) in E2, R2.
   change (dlist (fun s i => derive depth_fuel (func_vars f) s cs i) (func_vars f) (f_body f') (Some sid) 0)
     with (derive (S depth_fuel) (func_vars f) (SBlock (f_body f')) cs 0) in E2, R2.
-  split; [congruence|].
-  destruct (fst (derive_func f cs)) as [A|],
-           (fst (derive (S depth_fuel) (func_vars f) (SBlock (f_body f')) cs 0)) as [B|],
-           (fst (derive_func f' cs)) as [A'|]; cbn in *; try tauto.
-  intros x y Hx Hy. rewrite R1. symmetry. apply R2; assumption.
+  split; [congruence|]. exact (oeq_compose _ _ _ _ R2 R1).
 Qed.
 
 Lemma func_ok_same_elems f f' :
@@ -298,7 +300,8 @@ Theorem analyse_layout :
     results_agree (func_vars f) (fun x => x) r r'.
 Proof.
   intros FR VS VC f f' stop stop' r r' OK HL Han Han'.
-  apply (transfer FR VS VC f f' (fun x => x) OK (func_ok_same_elems f f' (proj1 HL) OK)); try assumption.
+  refine (transfer FR VS VC f f' (fun x => x) OK (func_ok_same_elems f f' (proj1 HL) OK) _ _
+            stop stop' r r' Han Han').
   - intros x Hx. apply (proj1 HL). exact Hx.
   - apply derive_func_layout. exact HL.
 Qed.
